@@ -653,6 +653,40 @@ func checkDAGMutex(r *Reporter, p *Prog) {
 	// no blocking StarvingMutex acquisition under the registry mutex
 	n := 0
 	var bad []string
+	// a blocking acquisition is a direct Lock/RLock of an entity mutex, or a call of a function
+	// parameter to which some caller hands such an acquisition ((*StarvingMutex).RLock as a method
+	// expression or method value): the call of the parameter is where the goroutine blocks
+	blockingParam := map[types.Object]bool{}
+	for _, fd := range p.Methods(pkg, "DAGMutex") {
+		if fd.Body == nil {
+			continue
+		}
+		ast.Inspect(fd.Body, func(nd ast.Node) bool {
+			c, ok := nd.(*ast.CallExpr)
+			if !ok {
+				return true
+			}
+			fn := staticCallee(info, c)
+			if fn == nil {
+				return true
+			}
+			hd := p.decls().byFunc[fn.Origin()]
+			if hd == nil || p.decls().infoOf[hd] != info {
+				return true
+			}
+			hp := paramObjs(info, hd)
+			for ai, a := range c.Args {
+				se, isSel := ast.Unparen(a).(*ast.SelectorExpr)
+				if !isSel || (se.Sel.Name != "Lock" && se.Sel.Name != "RLock") || ai >= len(hp) || hp[ai] == nil {
+					continue
+				}
+				if strings.HasSuffix(strings.Trim(typeName(info.TypeOf(se.X)), "*()"), "StarvingMutex") || strings.Contains(rawKey(se.X), "StarvingMutex") {
+					blockingParam[hp[ai]] = true
+				}
+			}
+			return true
+		})
+	}
 	for _, fd := range p.Methods(pkg, "DAGMutex") {
 		if fd.Body == nil {
 			continue
@@ -661,6 +695,14 @@ func checkDAGMutex(r *Reporter, p *Prog) {
 		AnalyzeLocks(fd.Body, LockSet{}, &FlowOpts{Info: info}, func(nd ast.Node, stack []ast.Node, held LockSet) {
 			c, ok := nd.(*ast.CallExpr)
 			if !ok || seen[c] {
+				return
+			}
+			if id, isId := ast.Unparen(c.Fun).(*ast.Ident); isId && blockingParam[info.Uses[id]] {
+				seen[c] = true
+				n++
+				if len(held) > 0 {
+					bad = append(bad, fmt.Sprintf("%s: the blocking acquisition handed in as %s is called while holding %s (every other entity is blocked behind the registry)", p.posStr(c.Pos()), id.Name, held))
+				}
 				return
 			}
 			se, ok := ast.Unparen(c.Fun).(*ast.SelectorExpr)
